@@ -12,7 +12,8 @@ Import ListNotations.
 Definition apply_paint (o : oracle) (g : grid scell) (p : paint) : grid scell :=
   match p with
   | PChar r c f ch => on_row g r (fun row => put_char o row c ch f)
-  | PBlanks r c f n => on_row g r (fun row => erase_cells row c n f)
+  | PBlanks r c f n => on_row g r (fun row => erase_cells row c n (Blank, fspace o f))
+  | PErase r c f n => on_row g r (fun row => erase_cells row c n (Blank, ferase o f))
   end.
 
 Definition apply_paints (o : oracle) (g : grid scell) (ps : list paint) : grid scell :=
@@ -20,8 +21,8 @@ Definition apply_paints (o : oracle) (g : grid scell) (ps : list paint) : grid s
 
 Lemma gdims_apply_paint : forall o g h w p, gdims g h w -> gdims (apply_paint o g p) h w.
 Proof.
-  intros o g h w [r c f ch|r c f n] Hd; simpl; apply gdims_on_row; auto; intros.
-  apply put_char_length. apply erase_cells_length.
+  intros o g h w [r c f ch|r c f n|r c f n] Hd; simpl; apply gdims_on_row; auto; intros.
+  apply put_char_length. apply erase_cells_length. apply erase_cells_length.
 Qed.
 
 Lemma gdims_apply_paints : forall o ps g h w, gdims g h w -> gdims (apply_paints o g ps) h w.
@@ -29,8 +30,8 @@ Proof.
   induction ps as [|p ps IH]; intros; simpl; auto. apply IH. apply gdims_apply_paint; auto.
 Qed.
 
-Lemma glyph_of_nonwide : forall ch, nonwide (glyph_of ch).
-Proof. intros. unfold glyph_of. destruct (N.eqb ch space); simpl; auto. Qed.
+Lemma cell_of_nonwide : forall o ch f, nonwide (fst (cell_of o ch f)).
+Proof. intros. unfold cell_of. destruct (N.eqb ch space); simpl; auto. Qed.
 
 Section Target.
   Variable o : oracle.
@@ -45,22 +46,23 @@ Section Target.
   Definition conform (p : paint) : Prop :=
     match p with
     | PChar r c f ch =>
-        (cw o ch = 1 /\ (D r c = true \/ T r c = (glyph_of ch, f)))
+        (cw o ch = 1 /\ (D r c = true \/ T r c = cell_of o ch f))
         \/ (cw o ch = 2 /\ ((D r c = true /\ D r (S c) = true)
                             \/ (T r c = (WL ch, f) /\ T r (S c) = (WR, f))))
-    | PBlanks r c f n => forall j, c <= j < c + n -> D r j = true \/ T r j = (Blank, f)
+    | PBlanks r c f n => forall j, c <= j < c + n -> D r j = true \/ T r j = (Blank, fspace o f)
+    | PErase r c f n => forall j, c <= j < c + n -> D r j = true \/ T r j = (Blank, ferase o f)
     end.
 
   Definition footprint (p : paint) (r c : nat) : Prop :=
     match p with
     | PChar r0 c0 _ ch => r = r0 /\ c0 <= c < c0 + cw o ch
-    | PBlanks r0 c0 _ n => r = r0 /\ c0 <= c < c0 + n
+    | PBlanks r0 c0 _ n | PErase r0 c0 _ n => r = r0 /\ c0 <= c < c0 + n
     end.
 
   Definition paint_inside (h w : nat) (p : paint) : Prop :=
     match p with
     | PChar r0 c0 _ ch => r0 < h /\ c0 + cw o ch <= w
-    | PBlanks r0 c0 _ n => r0 < h /\ c0 + n <= w
+    | PBlanks r0 c0 _ n | PErase r0 c0 _ n => r0 < h /\ c0 + n <= w
     end.
 
   Lemma apply_paint_ok : forall g h w p r c,
@@ -68,7 +70,22 @@ Section Target.
     (okc g r c \/ footprint p r c) -> okc (apply_paint o g p) r c.
   Proof.
     intros g h w p r c Hd Hc Hin Dk H. unfold okc in *.
-    destruct p as [r0 c0 f ch|r0 c0 f n]; simpl in *.
+    assert (Hblank : forall r0 c0 n x, nonwide (fst x) -> r0 < h /\ c0 + n <= w ->
+              (forall j, c0 <= j < c0 + n -> D r0 j = true \/ T r0 j = x) ->
+              (gget g r c = Some (T r c) \/ (r = r0 /\ c0 <= c < c0 + n)) ->
+              gget (on_row g r0 (fun row => erase_cells row c0 n x)) r c = Some (T r c)).
+    { intros r0 c0 n x Hx [Hr0 Hw] Hcf H'.
+      rewrite gget_on_row. destruct (Nat.eqb_spec r r0) as [->|Hr].
+      2:{ destruct H' as [H'|[H' _]]; auto. contradiction. }
+      destruct (nth_error g r0) as [row|] eqn:Er.
+      2:{ apply nth_error_None in Er. destruct Hd. lia. }
+      assert (Hl : length row = w) by (eapply gdims_row; eauto).
+      assert (Hg : gget g r0 c = nth_error row c) by (unfold gget; rewrite Er; reflexivity).
+      rewrite Hg in H'.
+      apply (erase_cells_ok (T r0) (D r0) (T_wl r0) (T_wr r0) (D_nonwide r0)); auto.
+      destruct H' as [H'|[_ H']]; auto. right. lia. }
+    destruct p as [r0 c0 f ch|r0 c0 f n|r0 c0 f n]; simpl in *;
+      [|apply Hblank; simpl; auto|apply Hblank; simpl; auto].
     - (* one character *)
       rewrite gget_on_row. destruct (Nat.eqb_spec r r0) as [->|Hr].
       2:{ destruct H as [H|[H _]]; auto. contradiction. }
@@ -83,7 +100,7 @@ Section Target.
         * rewrite put_hits by lia. destruct Hc as [Hc|Hc]; congruence.
         * destruct H as [H|[_ H]]; [|lia].
           apply (put_keeps (T r0) (D r0) (T_wl r0) (T_wr r0) (D_nonwide r0)); auto.
-          -- apply glyph_of_nonwide.
+          -- apply cell_of_nonwide.
           -- destruct Hc as [Hc|Hc]; auto.
       + rewrite Hw2 in *.
         destruct (put2_hits row c0 (WL ch, f) (WR, f) ltac:(lia)) as [H1 H2].
@@ -93,17 +110,6 @@ Section Target.
         { rewrite H2. destruct Hc as [[_ Hc]|[_ Hc]]; congruence. }
         destruct H as [H|[_ H]]; [|lia].
         apply (put2_keeps (T r0) (D r0) (T_wl r0) (T_wr r0) (D_nonwide r0)); auto.
-    - (* a run of blanks *)
-      rewrite gget_on_row. destruct (Nat.eqb_spec r r0) as [->|Hr].
-      2:{ destruct H as [H|[H _]]; auto. contradiction. }
-      destruct Hin as [Hr0 Hw].
-      destruct (nth_error g r0) as [row|] eqn:Er.
-      2:{ apply nth_error_None in Er. destruct Hd. lia. }
-      assert (Hl : length row = w) by (eapply gdims_row; eauto).
-      assert (Hg : gget g r0 c = nth_error row c) by (unfold gget; rewrite Er; reflexivity).
-      rewrite Hg in H.
-      apply (erase_cells_ok (T r0) (D r0) (T_wl r0) (T_wr r0) (D_nonwide r0)); auto.
-      destruct H as [H|[_ H]]; auto. right. lia.
   Qed.
 
   Lemma apply_paints_ok : forall ps g h w r c,
